@@ -20,6 +20,16 @@ progs = ["mov rax, 0x0\nadd rax, 0x2; adds two\nsub rax, 0x1\nret", "label:\n  j
 for i, p in enumerate(progs):
     for hdr in (bytes([11, 0, 9]), bytes([0x1b, 0x13, 9]), bytes([0x2b, 0x6b, 3])):
         d = hdr + p.encode(); open(os.path.join(out, "prog-" + hashlib.sha1(d).hexdigest()[:12]), "wb").write(d)
+# debug listing on / second call on the same instance, chunk fitting from a non-zero offset in a small caller buffer
+for i, p in enumerate(["mov rax, 0x1122334455667788\nadd rcx, 5\nvpaddq ymm1, ymm2, [rax+r9*2]\n", "nop\nmov byte [rsp+rax], 1\nret\n"]):
+    for hdr in (bytes([0x4b, 0x5a, 9]), bytes([0xcb, 0x5a, 9]), bytes([0xdb, 0x4d, 5]), bytes([0x8b, 0x0c, 0])):
+        d = hdr + p.encode(); open(os.path.join(out, "dbg-" + hashlib.sha1(d).hexdigest()[:12]), "wb").write(d)
+# lines whose filtered text ends at the edge of the 100-byte line window
+for i, (head, tail) in enumerate([("mov rax, 0x", "5"), ("add qword [rbx+rcx*8+0x", "10], 7"), ("mov r", ",[-"), ("lea rax, [rbx+0x", "]\r\n")]):
+    for total in (98, 99, 100):
+        flt = len(head.replace(" ", "")) + 1 + len(tail.replace(" ", "").replace("\r\n", ""))
+        l = head + "0" * (total - flt) + tail
+        d = bytes([11 + 16 * (i % 2), 0x0c, 9]) + l.encode(); open(os.path.join(out, "edge-" + hashlib.sha1(d).hexdigest()[:12]), "wb").write(d)
 toks = set()
 src = open("/repo/src/instructions.c").read()
 for m in re.findall(r'\{"([a-z0-9]+)",', src): toks.add(m)
